@@ -17,6 +17,7 @@ DEFAULT = dict(
     spike_templates=None,  # explicit list or None (random)
     channel_map=None, positions=None, extra_attrs=(), templates_dtype='float32', max_time=None,
     template_scale=1.0, int_valued=False,
+    spike_samples=None,    # explicit sorted list of spike samples or None (random)
 )
 
 
@@ -40,6 +41,8 @@ def make_dataset(d, **kw):
     n_rec = raw['n_samples'] if raw else (p['max_time'] or max(50, ns * 5))
     # spike samples: sorted, inside the recording, may contain ties
     samples = np.sort(rng.randint(0, n_rec, size=ns)).astype(p['times_dtype'])
+    if p['spike_samples'] is not None:
+        samples = np.asarray(p['spike_samples']).astype(p['times_dtype'])
     T['spike_samples'] = samples
     if alf:
         times = samples.astype(np.float64) / sr
